@@ -578,17 +578,17 @@ def a64_imm_unit(res):
         return ex.eq_term(v.fields["_value"], intlit(ex, val))
 
     res.add_paths(paths, post_val, kind="a64-immediate/value")
-    for n in range(64):
-        paths = ex.explore(lambda: call({"base_immediate": {"value": val}, "shift_op": "lsl", "immediate": {"value": str(n)}, "shift": [{"value": str(n)}]}), [lang])
+    for n, spelled in [(n, str(n)) for n in range(64)] + [(12, "0xc"), (16, "0x10"), (48, "0X30")]:  # the amount is a number of the same language
+        paths = ex.explore(lambda spelled=spelled: call({"base_immediate": {"value": val}, "shift_op": "lsl", "immediate": {"value": spelled}, "shift": [{"value": spelled}]}), [lang])
 
-        def post_sh(v, p, n=n):
-            if not (isinstance(v, SObj) and v.cls == "ImmediateOperand" and v.fields["_imd_type"] == "int" and v.fields["_shift"] == {"value": str(n)}):
+        def post_sh(v, p, n=n, spelled=spelled):
+            if not (isinstance(v, SObj) and v.cls == "ImmediateOperand" and v.fields["_imd_type"] == "int" and v.fields["_shift"] == {"value": spelled}):
                 return False
             ex.pc = list(p.pc)
             base = intlit(ex, val)
             return num_term(v.fields["_value"])[0] == num_term(base)[0] * (2 ** n)
 
-        res.add_paths(paths, post_sh, kind=f"a64-immediate/lsl-{n}")
+        res.add_paths(paths, post_sh, kind=f"a64-immediate/lsl-{spelled}")
     for kind in ("double", "float"):
         for fp in ({"mantissa": "1.5"}, {"mantissa": "2.5", "e_sign": "-", "exponent": "3"}, {"mantissa": "1.0", "e_sign": "+", "exponent": "2"}):
             paths = ex.explore(lambda: call({kind: dict(fp)}), [])
